@@ -383,12 +383,14 @@ Definition eq_opt (x y : option Z) : bool :=
 Definition eq_res (a b : reslist) : bool := rall2 eq_opt a b.
 
 (* reflect.DeepEqual(quotaFieldsCopy(old), quotaFieldsCopy(new)): raw parent / is-parent /
-   tree-id labels, raw namespaces annotation, spec.min, spec.max *)
+   tree-id labels, raw namespaces annotation, spec.min, spec.max, and (since the repair of
+   findings/C15-unchecked-flag-drop.md) the allow-force-update and is-root labels *)
 Definition fields_eq (o n : quota) : bool :=
   (q_plabel o =? q_plabel n) && Bool.eqb (q_is_parent o) (q_is_parent n)
   && (q_tree o =? q_tree n)
   && (if q_ns_bad o then q_ns_bad n else negb (q_ns_bad n) && eq_listZ (q_ns o) (q_ns n))
-  && eq_res (q_min o) (q_min n) && eq_res (q_max o) (q_max n).
+  && eq_res (q_min o) (q_min n) && eq_res (q_max o) (q_max n)
+  && Bool.eqb (q_force o) (q_force n) && Bool.eqb (q_tree_root o) (q_tree_root n).
 
 (* 0 = accepted and applied, -1 = accepted without any change (nothing relevant differs),
    otherwise the number of the failing check *)
